@@ -1,6 +1,7 @@
 --------------------------- MODULE HostTrustTrace ---------------------------
 (* Trace judge for C20.  Input: ndjson (TRACE_FILE), one TLC state per line.                 *)
-(*  host : [t, i, op, api, host, present, srv, srvport, scheme, list, tab,                   *)
+(*  host : [t, i, op, api, vkind, host, present, srv, srvport, scheme, list, tab,            *)
+(*          (vkind = "host" | "url": what a returned text is - the host, or a URL built from it) *)
 (*          r : [kind : "bool" | "value" | "exc", b, v, exc, code]]                          *)
 (*         one call of host_is_trusted / sansio get_host / wsgi get_host / Request.host      *)
 (*  dcfg : [t, op, evalex, pin_on, trusted]            a fresh DebuggedApplication           *)
@@ -45,9 +46,11 @@ HostClause(ln) ==
               V  == IF hs = h THEN V1 ELSE V1 \cup Verdicts(ln.tab, hs, ln.list) IN
           IF r.kind = "value" THEN
                IF TRUE \notin V THEN BoolClause(ln.tab, hs, ln.list, TRUE)
-               ELSE IF r.v = h \/ r.v = hs THEN "ok" ELSE "HostValue"
+               ELSE IF ln.vkind = "url" \/ r.v = h \/ r.v = hs THEN "ok" ELSE "HostValue"
           ELSE IF r.kind = "exc" /\ r.exc = "SecurityError" /\ r.code = 400 THEN
                IF FALSE \notin V THEN "ListedIsTrusted" ELSE "ok"
+          \* a URL-building entry point may fail for its own reasons once the host itself is acceptable
+          ELSE IF ln.vkind = "url" /\ TRUE \in V THEN "ok"
           ELSE IF Malformed(ln.tab, hs) THEN "MalformedIsSecurityError" ELSE "NoOtherFailure"
 
 (* ---- debugger lines ----------------------------------------------------------------------- *)
